@@ -45,7 +45,23 @@ class Fn:
             fail(call, "__call__ must take exactly (self, detectors)")
         self.det = self.det[0]
         self.collect(call.body)
-        self.order = [("l", v) for v in self.locals] + [("a", v) for v in self.attrs if self.attr_assigned[v]]
+        # canonical order of the state tuple: locals assigned inside compound statements (loops, ifs) first, in the order
+        # in which those bodies first assign them; then the locals only assigned in straight-line code; then attributes.
+        # The order of the initialisations at the top of a method therefore does not reach the generated term.
+        inner = []
+        def walk(stmts, inside):
+            for st in stmts:
+                if isinstance(st, (ast.Assign, ast.AugAssign)) and inside:
+                    t = st.targets[0] if isinstance(st, ast.Assign) else st.target
+                    if isinstance(t, ast.Name) and t.id not in inner:
+                        inner.append(t.id)
+                elif isinstance(st, ast.If):
+                    walk(st.body, True); walk(st.orelse, True)
+                elif isinstance(st, ast.For):
+                    walk(st.body, True)
+        walk(call.body, False)
+        locs = [v for v in inner if v in self.locals] + [v for v in self.locals if v not in inner]
+        self.order = [("l", v) for v in locs] + [("a", v) for v in self.attrs if self.attr_assigned[v]]
 
     # ---------------------------------------------------------------- __init__
     def parse_init(self, init):
